@@ -572,6 +572,13 @@ func (g *Gen) opAnswer(pend []PendingView) {
 			op.O = "timeout"
 		case "null":
 			op.O, op.P = "result", "null"
+		case "both":
+			// a result and a resource in one answer: the resource wins, one response
+			op.O, op.P = "raw", `{"result":{"ok":true},"resource":{"rid":`+jstr(g.sample("resrid", g.rids))+`}}`
+		case "empty":
+			op.O, op.P = "raw", `{}`
+		case "reserr":
+			op.O, op.P = "raw", `{"resource":{"rid":`+jstr(g.sample("resrid", g.rids))+`},"error":{"code":"custom.err","message":"E"}}`
 		default:
 			op.O, op.P = "result", g.sample("result", []string{`{"ok":true}`, `5`, `"s"`, `[1,2]`, `{"rid":"t.a"}`})
 		}
